@@ -5,3 +5,4 @@ import MLModel.Classify
 import MLModel.Calibrate
 import MLModel.Params
 import MLModel.Shape
+import MLModel.PSD
